@@ -312,4 +312,63 @@ theorem specGo_untouched (alnum : Char → Bool) (env : Env) (path : Text)
     simp only [hnone]
     rw [ih (a ++ [c]) (by rw [hp]; simp)]
 
+/-! ### the expansion depends only on the variables the path references -/
+
+theorem specGo_congr (alnum : Char → Bool) (env₁ env₂ : Env) (path : Text)
+    (h : ∀ a t n, path = a ++ (envPrefix ++ t) → refAt alnum t = some n → lookup env₁ n = lookup env₂ n) :
+    ∀ s a, path = a ++ s → ∀ k, specGo alnum env₁ k s = specGo alnum env₂ k s := by
+  intro s
+  induction s with
+  | nil => intro a _ k; cases k <;> rfl
+  | cons c rest ih =>
+    intro a hp k
+    have hp' : path = (a ++ [c]) ++ rest := by rw [hp]; simp
+    cases k with
+    | succ k => simp only [specGo]; exact ih _ hp' k
+    | zero =>
+      have hsub : substAt alnum env₁ (c :: rest) = substAt alnum env₂ (c :: rest) := by
+        by_cases hocc : isPrefix envPrefix (c :: rest) = true
+        · obtain ⟨t, ht⟩ := (isPrefix_iff _ _).1 hocc
+          rw [ht, substAt_of_occ, substAt_of_occ]
+          cases hs : scanRef alnum t with
+          | none => rfl
+          | some n =>
+            have := h a t n (by rw [hp, ht]) (by rw [← scanRef_eq_refAt]; exact hs)
+            simp only [this]
+        · have hocc' : isPrefix envPrefix (c :: rest) = false := by simpa using hocc
+          rw [substAt_of_not_occ _ _ _ hocc', substAt_of_not_occ _ _ _ hocc']
+      rw [specGo, specGo, hsub]
+      cases substAt alnum env₂ (c :: rest) with
+      | none => simp only; rw [ih _ hp' 0]
+      | some p => obtain ⟨n, v⟩ := p; simp only; rw [ih _ hp' _]
+
+theorem lookup_remove (x y : Env) (m v n : Text) (h : m ≠ n) :
+    lookup (x ++ (m, v) :: y) n = lookup (x ++ y) n := by
+  induction x with
+  | nil => simp [lookup, h]
+  | cons e x ih =>
+    obtain ⟨k, w⟩ := e
+    simp only [List.cons_append, lookup, ih]
+
+theorem unicodeView_append (a b : OsEnv) : unicodeView (a ++ b) = unicodeView a ++ unicodeView b := by
+  simp [unicodeView, List.filterMap_append]
+
+/-- a variable that is not the one asked for — in particular one whose name or value is not valid
+Unicode — does not change what `std::env::var(n)` returns -/
+theorem lookup_unicodeView_remove (os₁ os₂ : OsEnv) (b : Bytes × Bytes) (n : Text)
+    (hb : decodeUtf8 b.1 ≠ some n) :
+    lookup (unicodeView (os₁ ++ b :: os₂)) n = lookup (unicodeView (os₁ ++ os₂)) n := by
+  have hsplit : os₁ ++ b :: os₂ = os₁ ++ ([b] ++ os₂) := by simp
+  rw [hsplit, unicodeView_append, unicodeView_append, unicodeView_append]
+  cases h1 : decodeUtf8 b.1 with
+  | none => simp [unicodeView, h1]
+  | some m =>
+    cases h2 : decodeUtf8 b.2 with
+    | none => simp [unicodeView, h1, h2]
+    | some v =>
+      have hm : m ≠ n := fun e => hb (by rw [h1, e])
+      have : unicodeView [b] = [(m, v)] := by simp [unicodeView, h1, h2]
+      rw [this]
+      exact lookup_remove _ _ m v n hm
+
 end Log4rs.EnvExpand
